@@ -452,6 +452,11 @@ Theorem c04_rounding_places_guarded :
 Proof. exact rounding_places_guarded. Qed.
 Print Assumptions c04_rounding_places_guarded.
 
+Theorem c04_base_arity_checks_as_model :
+  forallb snd base_arity_checks = true /\ List.length base_arity_checks = 3%nat.
+Proof. exact base_arity_checks_as_model. Qed.
+Print Assumptions c04_base_arity_checks_as_model.
+
 Theorem c04_operator_guards_in_source :
   max_number_exponent_src = max_number_exponent /\ forallb snd operator_guards = true
   /\ List.length operator_guards = 8%nat.
